@@ -26,9 +26,9 @@
 (*   M3      a fixed list of three-pair maps (cycles, chains).             *)
 (* Every expression of depth <= 1 gets all its maps.  Deeper expressions   *)
 (* are thinned deterministically: M1 maps 1 in S1, M2 only for 1 in SE     *)
-(* expressions and then 1 in S2 maps (the fixed quantifier family DQ: all  *)
-(* of M1, 1 in SQ of M2), positions rotated by Off (the driver derives Off *)
-(* from the run's seed).                                                   *)
+(* expressions and there for 1 in S2 first pairs (the fixed quantifier     *)
+(* family DQ: all of M1, M2 for 1 in SQ first pairs), positions rotated by *)
+(* Off (the driver derives Off from the run's seed).                       *)
 (***************************************************************************)
 EXTENDS Subst, FiniteSets, SequencesExt
 CONSTANTS Thorough,   \* BOOLEAN: wider leaf sets and operator sets
@@ -112,14 +112,19 @@ Good1(e) == UNION {{Pair(k, val) : val \in Vals(Sort(k)) \ {k}} : k \in Subterms
 Bad1(e)  == UNION {{Pair(k, val) : val \in Bad(Sort(k))} : k \in Subterms(e) \cup Foreign}
 For1     == UNION {{Pair(k, val) : val \in Vals2(Sort(k))} : k \in Foreign}
 M1(e) == {<<p>> : p \in Good1(e) \cup Bad1(e) \cup For1}
-\* second keys for a first pair p1
-Keys2(e, p1) == {k \in (Subterms(e) \cup Subterms(p1.v) \cup {Subst(t, <<p1>>) : t \in Subterms(e)} \cup Foreign) \ {p1.k} : ~ZeroDen(k)}
-Second(e, p1) ==
-   UNION {{Pair(k, val) : val \in (Vals2(Sort(k)) \cup (IF PairVerdict(k, p1.k) # "no" THEN {p1.k} ELSE {})
-                                    \cup (IF k \in Subterms(e) THEN Bad(Sort(k)) ELSE {})) \ {k}}
-          : k \in Keys2(e, p1)}
-M2(e) == UNION {{<<p1, p2>> : p2 \in Second(e, p1)} : p1 \in Good1(e)}
-          \cup UNION {{<<p1, p2>> : p2 \in {p \in For1 : p.k # p1.k}} : p1 \in Bad1(e)}
+\* second keys for a first pair p1 (sub = Subterms(e)); a key that only exists after p1 has been
+\* applied may be a division by a closed zero term, which cannot be built
+Keys2(sub, p1) == (sub \cup Subterms(p1.v) \cup {k \in {Subst(t, <<p1>>) : t \in sub} : ~ZeroDen(k)} \cup Foreign) \ {p1.k}
+Second(sub, p1) ==
+   UNION {LET s == Sort(k) IN
+          {Pair(k, val) : val \in (Vals2(s) \cup (IF PairVerdict(k, p1.k) # "no" THEN {p1.k} ELSE {})
+                                    \cup (IF k \in sub THEN Bad(s) ELSE {})) \ {k}}
+          : k \in Keys2(sub, p1)}
+\* two-pair maps whose first pair is taken from G (good pairs) or from D (ill-sorted pairs)
+M2of(e, G, D) == LET sub == Subterms(e) IN
+   UNION {{<<p1, p2>> : p2 \in Second(sub, p1)} : p1 \in G}
+   \cup UNION {{<<p1, p2>> : p2 \in {p \in For1 : p.k # p1.k}} : p1 \in D}
+M2(e) == M2of(e, Good1(e), Bad1(e))
 M3 == {<<Pair(A, B), Pair(B, C), Pair(C, A)>>,
        <<Pair(A, B), Pair(Bin("and", B, B), C), Pair(Not(B), A)>>,
        <<Pair(V, LOC), Pair(P(LOC), A), Pair(P(V), B)>>,
@@ -138,9 +143,10 @@ MapsOf(i) ==
    LET e == ExprSeq[i]
        m3 == {m \in M3 : Hits(e, m)}
    IN IF i <= NShallow THEN {<<>>} \cup M1(e) \cup M2(e) \cup m3
-      ELSE IF e \in DQ THEN {<<>>} \cup M1(e) \cup Thin(M2(e), SQ, i + Off) \cup m3
+      ELSE IF e \in DQ THEN {<<>>} \cup M1(e) \cup M2of(e, Thin(Good1(e), SQ, i + Off), Thin(Bad1(e), SQ, i + Off)) \cup m3
       ELSE Thin(M1(e), S1, i + Off)
-           \cup (IF (i + Off) % SE = 0 THEN Thin(M2(e), S2, i + Off) \cup m3 ELSE {})
+           \cup (IF (i + Off) % SE = 0
+                 THEN M2of(e, Thin(Good1(e), S2, i + Off), Thin(Bad1(e), S2, i + Off)) \cup m3 ELSE {})
 Groups == TLCEval([i \in DOMAIN ExprSeq |-> [e |-> ExprSeq[i], ms |-> SetToSeq(MapsOf(i))]])
 \* sum of f[lo..hi] (balanced recursion: TLC's stack is shallow)
 RECURSIVE SumRange(_, _, _)
